@@ -55,7 +55,7 @@ pub fn build(property: &str, tier: &str) -> Option<PropRun> {
 }
 
 /// The shared link-world pool run with this property's oracles.
-fn from_pool(quick: bool, prop: &str, mask: u32) -> Vec<Scenario> {
+pub fn from_pool(quick: bool, prop: &str, mask: u32) -> Vec<Scenario> {
     crate::pool::lw_pool(quick).into_iter().map(|mut s| { s.oracles = mask; s.tag = format!("{}.pool.{}", prop, s.tag); lw_scenario(s) }).collect()
 }
 
